@@ -317,6 +317,9 @@ func ghostSort(s string) string {
 	case "slice", "bytes", "strs":
 		return "Slice"
 	}
+	if strings.HasPrefix(s, "smt:") {
+		return strings.TrimPrefix(s, "smt:")
+	}
 	panic(engineErr("bad ghost sort " + s))
 }
 
